@@ -3,7 +3,9 @@
 package peering
 
 import (
+	"maps"
 	"net"
+	"sync/atomic"
 
 	"github.com/mycoria/mycoria/m"
 )
@@ -26,4 +28,42 @@ func (p *Peering) VerifSetupLink(conn net.Conn, peeringURL *m.PeeringURL, outgoi
 // Verification hook: only compiled with the "verif" build tag.
 func (p *Peering) VerifWorkerCnt() int {
 	return int(p.mgr.VerifWorkerCnt())
+}
+
+// VerifGateHook, when set, is called at the steps of a link's set-up and
+// close: "checked" (handshake done, before the label is chosen), "labelled"
+// (before AddLink), "added" (after AddLink returned), "close" (Close called,
+// before the closing flag), "closing" (flag won, before RemoveLink), "removed"
+// (after RemoveLink). The hook may block: it then acts as a scheduler gate.
+// Verification hook: only compiled with the "verif" build tag.
+var VerifGateHook atomic.Pointer[func(link *LinkBase, point string)]
+
+func verifGate(link *LinkBase, point string) {
+	if h := VerifGateHook.Load(); h != nil {
+		(*h)(link, point)
+	}
+}
+
+// VerifConn returns the connection the link runs on.
+// Verification hook: only compiled with the "verif" build tag.
+func (link *LinkBase) VerifConn() net.Conn { return link.conn }
+
+// VerifPeering returns the peering module the link belongs to.
+// Verification hook: only compiled with the "verif" build tag.
+func (link *LinkBase) VerifPeering() *Peering { return link.peering }
+
+// VerifRegistry returns copies of the by-peer and by-label link tables.
+// Verification hook: only compiled with the "verif" build tag.
+func (p *Peering) VerifRegistry() (byPeer map[string]Link, byLabel map[uint64]Link) {
+	p.linksLock.RLock()
+	defer p.linksLock.RUnlock()
+	byPeer = make(map[string]Link, len(p.links))
+	for ip, l := range p.links {
+		byPeer[ip.String()] = l
+	}
+	byLabel = make(map[uint64]Link, len(p.linksByLabel))
+	for lb, l := range maps.All(p.linksByLabel) {
+		byLabel[uint64(lb)] = l
+	}
+	return byPeer, byLabel
 }
